@@ -274,7 +274,8 @@ def conditions(tier):
         def reg(_fx=dict(fx), **kw):
             return region_f1(**{**_fx, **kw})
         cs.append(make_cond(
-            nm, make_flat(full, ftags), run_upd, judge_upd, fx, timeout=400, group='M-flat',
+            nm, make_flat(full, ftags), run_upd, judge_upd, fx, timeout=1500 if full else 400,
+            group='M-flat',
             known_regions={'F1-dedup-removes-kept-entry': reg},
             twin=(fx['a_kind'] == 1 and fx['e1_present'] and fx['e2_present']),
             descr='update_entries_for_directory + save_manifests on the model, then the '
@@ -315,7 +316,8 @@ def conditions(tier):
             continue        # no usable sub-Manifest: the child slot does not exist
         nm = 'nest_' + '_'.join(f'{k.replace("_", "")[:4]}{int(x)}' for k, x in fx.items())
         cs.append(make_cond(
-            nm, make_nest(full, ntags), run_upd, judge_upd, fx, timeout=400, group='M-nest',
+            nm, make_nest(full, ntags), run_upd, judge_upd, fx, timeout=1500 if full else 400,
+            group='M-nest',
             twin=(fx['c_kind'] == 1 and fx['sub_state'] == 0),
             descr='update (whole tree or sub-directory) + save on the model, exactness '
                   'oracle + fresh verification',
